@@ -377,6 +377,11 @@ def execute(spec):
                 res.status = 1
     finally:
         rec.main_nyield = S.main.nyield
+        if rec.fallback_active:
+            # (write probe missing) the run ended inside a rewrite
+            rec.fallback_active = False
+            rec.rewrite_in_progress = False
+            rec.rewrite_interrupted = True
         try:
             S.shutdown()
         except Exception as e:
